@@ -104,7 +104,8 @@ PinBuild(x, y) ==
 (* each type on each square x optional blocker on b/c/d/f/g (fine).        *)
 (***************************************************************************)
 CastleCoarse == {<<side, ks, qs>> \in {0, 1} \X Bools \X Bools : ks + qs >= 1}
-CastleFine(x) == {<<ep, esq, bf, bown>> \in {P, N, B, R, Q} \X Sq \X {-1, 1, 2, 3, 5, 6} \X Bools : TRUE}
+\* (the enemy piece may be the enemy KING itself: it attacks the squares next to it)
+CastleFine(x) == {<<ep, esq, bf, bown>> \in {P, N, B, R, Q, K} \X Sq \X {-1, 1, 2, 3, 5, 6} \X Bools : TRUE}
 CastleBuild(x, y) ==
   LET side == x[1]  opp == Other(side)  r == HomeRank(side)
       c0 == Place(Place(Place(EmptyCells, MkSq(4, r), MkCell(side, K)), MkSq(0, r), MkCell(side, R)),
@@ -116,7 +117,7 @@ CastleBuild(x, y) ==
      THEN MkPos(EmptyCells, side, 0, -1, 0, 1)
      ELSE LET c1 == Place(c0, esq, MkCell(opp, y[1]))
               c2 == IF bsq = -1 THEN c1 ELSE Place(c1, bsq, MkCell(IF y[4] = 1 THEN side ELSE opp, N))
-          IN Park(c2, opp, side, cr, -1, 0, 1)
+          IN IF y[1] = K THEN MkPos(c2, side, cr, -1, 0, 1) ELSE Park(c2, opp, side, cr, -1, 0, 1)
 
 (***************************************************************************)
 (* F_PROMO: colour x pawn file (coarse); contents of the three target      *)
@@ -169,17 +170,104 @@ ChkBuild(x, y) ==
   ELSE Park(Place(Place(Place(EmptyCells, k, MkCell(side, K)), y[2], MkCell(opp, y[1])), y[4], MkCell(side, y[3])),
             opp, side, 0, -1, 0, 1)
 
-FamilyNames == {"EP", "EPEDGE", "ONLYEP", "PIN", "CASTLE", "PROMO", "MAT", "CHK"}
+(***************************************************************************)
+(* F_AMBIG: SAN disambiguation.  piece type x destination (coarse); two or *)
+(* three like pieces on squares that reach the destination on an empty     *)
+(* board, destination empty or holding an enemy man, side (fine).          *)
+(***************************************************************************)
+ReachEmpty(p, sq) ==
+  CASE p = N -> KnightSet[sq]
+    [] p = B -> SlideAttacks({}, sq, DiagDirs)
+    [] p = R -> SlideAttacks({}, sq, OrthDirs)
+    [] p = Q -> SlideAttacks({}, sq, AllDirs)
+AmbigCoarse == {<<p, dd>> \in {N, B, R, Q} \X Sq : TRUE}
+AmbigFine(x) ==
+  LET src == ReachEmpty(x[1], x[2]) IN
+  {<<s1, s2, s3, cap, side>> \in src \X src \X (src \cup {-1}) \X {0, 1} \X {0, 1} :
+      s1 < s2 /\ (s3 = -1 \/ s2 < s3)}
+AmbigBuild(x, y) ==
+  LET p == x[1]  dd == x[2]  side == y[5]  opp == Other(side)
+      c0 == Place(Place(EmptyCells, y[1], MkCell(side, p)), y[2], MkCell(side, p))
+      c1 == IF y[3] = -1 THEN c0 ELSE Place(c0, y[3], MkCell(side, p))
+      c2 == IF y[4] = 1 THEN Place(c1, dd, MkCell(opp, N)) ELSE c1
+      p1 == Park(c2, side, side, 0, -1, 0, 1)
+  IN Park(p1.cells, opp, side, 0, -1, 0, 1)
+
+(***************************************************************************)
+(* F_MINOR: kings + one or two minor pieces on EVERY square (pair): the    *)
+(* insufficient-material rule depends on square colours, so every square   *)
+(* must be tried, not a few representative ones.                           *)
+(*   coarse: first square; fine: second square or -1, piece kinds/colours, *)
+(*   clock, side                                                           *)
+(***************************************************************************)
+MinorCoarse == {<<s1>> : s1 \in Sq}
+MinorFine(x) == {<<s2, k1, k2, hm, side>> \in (Sq \cup {-1}) \X {MkCell(0, B), MkCell(1, B), MkCell(0, N)}
+                                             \X {MkCell(0, B), MkCell(1, B), MkCell(1, N)} \X {0, 100} \X {0, 1} :
+                    s2 = -1 \/ s2 > x[1]}
+MinorBuild(x, y) ==
+  LET c0 == Place(EmptyCells, x[1], y[2])
+      c1 == IF y[1] = -1 THEN c0 ELSE Place(c0, y[1], y[3])
+      side == y[5]
+      p1 == Park(c1, side, side, 0, -1, y[4], 1)
+  IN Park(p1.cells, Other(side), side, 0, -1, y[4], 1)
+
+(***************************************************************************)
+(* F_RAW: raw boards at the validity boundary (emitted whether valid or    *)
+(* not): a valid skeleton with one disturbance.                            *)
+(*   kind 0 extra king (colour a on square b)      kind 1 king of colour a removed                 *)
+(*   kind 2 pawn of colour a on square b of rank 1/8   kind 3 e.p. mark on square b, side a       *)
+(*   kind 4 rights set b after removing the man on home square index c (0 none)                    *)
+(*   kind 5 colour a gets b extra knights (reaching 15..18 men)                                    *)
+(*   kind 6 a man of type c, colour = side to move, on square b (may attack the waiting king)      *)
+(***************************************************************************)
+Skeleton(i) ==
+  CASE i = 1 -> MkPos(Place(Place(Place(Place(Place(Place(EmptyCells, 60, MkCell(White, K)), 4, MkCell(Black, K)),
+                                  56, MkCell(White, R)), 63, MkCell(White, R)), 0, MkCell(Black, R)), 7, MkCell(Black, R)),
+                      White, 15, -1, 3, 9)
+    [] i = 2 -> MkPos(Place(Place(Place(Place(Place(Place(EmptyCells, 62, MkCell(White, K)), 20, MkCell(Black, K)),
+                                  28, MkCell(Black, P)), 27, MkCell(White, P)), 35, MkCell(White, P)), 36, MkCell(Black, P)),
+                      White, 0, 28, 0, 1)
+    [] i = 3 -> MkPos(Place(Place(Place(Place(Place(Place(EmptyCells, 62, MkCell(White, K)), 20, MkCell(Black, K)),
+                                  28, MkCell(Black, P)), 27, MkCell(White, P)), 35, MkCell(White, P)), 36, MkCell(Black, P)),
+                      Black, 0, 35, 0, 1)
+HomeSquares == <<-1, 0, 4, 7, 56, 60, 63>>
+RawCoarse == {<<i, k>> \in (1..3) \X (0..6) : TRUE}
+RawFine(x) ==
+  LET k == x[2] IN
+  CASE k = 0 -> {<<a, b, 0>> : a \in {0, 1}, b \in Sq}
+    [] k = 1 -> {<<a, 0, 0>> : a \in {0, 1}}
+    [] k = 2 -> {<<a, b, 0>> : a \in {0, 1}, b \in {q \in Sq : RankOf(q) \in {0, 7}}}
+    [] k = 3 -> {<<a, b, 0>> : a \in {0, 1}, b \in Sq}
+    [] k = 4 -> {<<0, b, c>> : b \in 0..15, c \in 1..7}
+    [] k = 5 -> {<<a, b, 0>> : a \in {0, 1}, b \in 11..16}
+    [] k = 6 -> {<<0, b, c>> : b \in Sq, c \in {P, N, B, R, Q}}
+RECURSIVE AddKnights(_, _, _, _)
+AddKnights(c, color, n, q) ==
+  IF n = 0 \/ q > 55 THEN c
+  ELSE IF c[q] = 0 THEN AddKnights(Place(c, q, MkCell(color, N)), color, n - 1, q + 1) ELSE AddKnights(c, color, n, q + 1)
+RawBuild(x, y) ==
+  LET sk == Skeleton(x[1])  k == x[2]  c == sk.cells IN
+  CASE k = 0 -> [sk EXCEPT !.cells = Place(c, y[2], MkCell(y[1], K))]
+    [] k = 1 -> [sk EXCEPT !.cells = [q \in Sq |-> IF c[q] = MkCell(y[1], K) THEN 0 ELSE c[q]]]
+    [] k = 2 -> [sk EXCEPT !.cells = Place(c, y[2], MkCell(y[1], P))]
+    [] k = 3 -> [sk EXCEPT !.side = y[1], !.ep = y[2]]
+    [] k = 4 -> [sk EXCEPT !.castling = y[2],
+                           !.cells = IF HomeSquares[y[3]] = -1 THEN c ELSE Place(c, HomeSquares[y[3]], 0)]
+    [] k = 5 -> [sk EXCEPT !.cells = AddKnights(c, y[1], y[2], 8)]
+    [] k = 6 -> [sk EXCEPT !.cells = IF c[y[2]] # 0 \/ (y[3] = P /\ RankOf(y[2]) \in {0, 7}) THEN c
+                                      ELSE Place(c, y[2], MkCell(sk.side, y[3]))]
+
+FamilyNames == {"EP", "EPEDGE", "ONLYEP", "PIN", "CASTLE", "PROMO", "MAT", "CHK", "AMBIG", "RAW", "MINOR"}
 Coarse(f) ==
   CASE f = "EP" -> EpCoarse [] f = "EPEDGE" -> EdgeCoarse [] f = "ONLYEP" -> OnlyEpCoarse
     [] f = "PIN" -> PinCoarse [] f = "CASTLE" -> CastleCoarse [] f = "PROMO" -> PromoCoarse
-    [] f = "MAT" -> MatCoarse [] f = "CHK" -> ChkCoarse
+    [] f = "MAT" -> MatCoarse [] f = "CHK" -> ChkCoarse [] f = "AMBIG" -> AmbigCoarse [] f = "RAW" -> RawCoarse [] f = "MINOR" -> MinorCoarse
 Fine(f, x) ==
   CASE f = "EP" -> EpFine(x) [] f = "EPEDGE" -> EdgeFine(x) [] f = "ONLYEP" -> OnlyEpFine(x)
     [] f = "PIN" -> PinFine(x) [] f = "CASTLE" -> CastleFine(x) [] f = "PROMO" -> PromoFine(x)
-    [] f = "MAT" -> MatFine(x) [] f = "CHK" -> ChkFine(x)
+    [] f = "MAT" -> MatFine(x) [] f = "CHK" -> ChkFine(x) [] f = "AMBIG" -> AmbigFine(x) [] f = "RAW" -> RawFine(x) [] f = "MINOR" -> MinorFine(x)
 Build(f, x, y) ==
   CASE f = "EP" -> EpBuild(x, y) [] f = "EPEDGE" -> EdgeBuild(x, y) [] f = "ONLYEP" -> OnlyEpBuild(x, y)
     [] f = "PIN" -> PinBuild(x, y) [] f = "CASTLE" -> CastleBuild(x, y) [] f = "PROMO" -> PromoBuild(x, y)
-    [] f = "MAT" -> MatBuild(x, y) [] f = "CHK" -> ChkBuild(x, y)
+    [] f = "MAT" -> MatBuild(x, y) [] f = "CHK" -> ChkBuild(x, y) [] f = "AMBIG" -> AmbigBuild(x, y) [] f = "RAW" -> RawBuild(x, y) [] f = "MINOR" -> MinorBuild(x, y)
 =============================================================================
